@@ -599,6 +599,9 @@ pub fn run(out: &mut Out, thorough: bool, seed: u64, prop: &str) {
     if prop == "C01" {
         extremes(out, &mut rng, thorough);
     }
+    if prop == "C02" {
+        crate::c16::prio3_misuse(out, &mut rng, thorough);
+    }
     match prop {
         "C17" => crate::pop::c17(out, &mut rng, thorough),
         "C18" => crate::pop::c18(out, &mut rng, thorough),
